@@ -21,17 +21,23 @@ import AmVerif.Proofs.SyncRounds
       drops and reconnects there is no quiet non-converged configuration;
     * `C21_not_left_waiting`: after a reconnect neither side is waiting (`in_flight = false`) and
       the first `generate_sync_message` of either side produces a message, whatever the documents.
-  MISSING for the full statement:
-    * progress (as for C20, validated by the direct oracle of the `sync` engine: 3–4 peers, random
-      topologies, drops with messages in flight, both reconnect modes);
-    * the lift from pairs to n peers.  The pairwise invariant does NOT hold verbatim with three
-      or more peers: a peer's queue can hold orphans that came from a third peer, they can become
-      new heads when a dependency arrives from this peer, `advance_heads` then puts them into
-      `shared_heads` although the other side does not have them, and the other side answers with
-      the reset message (`their last_sync is unknown`).  The differential run sees this happen
-      (reset messages in schedules without any data loss); the protocol recovers because the
-      receiver of a reset message resends everything.  A proof for n peers needs the weaker
-      invariant `shared_heads ⊆ applied_self` plus an analysis of the reset path.
+  CONTINUED in `AmVerif.Props.C21Progress` (for an arbitrary `fp` unless said otherwise):
+    * progress for the pair: from every `Reachable21` configuration, once edits and disconnects stop,
+      the pair is quiescent and converged within `missing + 4` rounds (`C21_progress`,
+      `C21_converges_after_last_reconnect`); a reconnect resets `sent_hashes` on both sides, which is
+      what makes the lossy drop harmless (`C21_reconnect_resets_sent`,
+      `C21_one_sided_reset_livelock` for the converse);
+    * n peers, safety: every reachable network (`NetStep`: edit | generate | deliver | drop |
+      connect(fresh | persisted), any topology) in which every connected link is quiet is converged
+      on every connected component (`C21_component_converged_partial`).  The pairwise invariant of
+      C20 does NOT hold with three or more peers (a peer's queue can hold orphans that came from a
+      third peer, they can become new heads when a dependency arrives from this peer,
+      `advance_heads` then puts them into `shared_heads` although the other side does not have
+      them, and the other side answers with the reset message); the proof uses a weaker session
+      invariant that survives third-party deliveries.
+  STILL MISSING for the full statement: progress for n peers (the pair lemma under the weak
+  invariants, including the reset-message branch; see `C21Progress.lean` for the exact statement
+  and for why it cannot hold for every `fp`: `C21_forced_fp_defeats_reset`).
 -/
 namespace AmVerif.Props.C21
 open AmVerif AmVerif.Sync
